@@ -14,6 +14,14 @@
 (* whether a derived string is a valid script / module is decided by V8    *)
 (* and acorn together, never by this grammar.  The token "<NL>" is a line  *)
 (* terminator; the harness joins the other tokens with single spaces.      *)
+(*                                                                         *)
+(* Three further sub-grammars derive STATEMENT STRUCTURE (14.7 iteration   *)
+(* statements and the [In] grammar parameter of 13.x, every statement kind *)
+(* that opens a scope): "forhead", "inop", "scopes".  Their productions    *)
+(* carry a weight; a derivation may use productions of summed weight       *)
+(* <= MaxCost, which makes TLC enumerate every clause position with every  *)
+(* heavy alternative, and every PAIR of positions with every pair of       *)
+(* alternatives, while the remaining positions hold a plain filler.        *)
 (***************************************************************************)
 EXTENDS Integers, Sequences, FiniteSets, TLC, Json
 
